@@ -34,9 +34,14 @@ func detECDSA(curve elliptic.Curve, label string) *ecdsa.PrivateKey {
 // encryptedKeyFile marshals key as a passphrase-protected OpenSSH key file and
 // checks that it parses back to the expected Go type with the passphrase only.
 func encryptedKeyFile(key any, label string) (pemBytes []byte, goType string, err error) {
+	return encryptedKeyFileP(key, label, []byte(keys.Passphrase))
+}
+
+// encryptedKeyFileP is encryptedKeyFile with a given passphrase.
+func encryptedKeyFileP(key any, label string, passphrase []byte) (pemBytes []byte, goType string, err error) {
 	prev := rand.Reader
 	rand.Reader = mon.NewDetStream("c19-keyfile-" + label)
-	block, err := ssh.MarshalPrivateKeyWithPassphrase(key, label, []byte(keys.Passphrase))
+	block, err := ssh.MarshalPrivateKeyWithPassphrase(key, label, passphrase)
 	rand.Reader = prev
 	if err != nil {
 		return nil, "", err
@@ -45,7 +50,7 @@ func encryptedKeyFile(key any, label string) (pemBytes []byte, goType string, er
 	if _, err := ssh.ParseRawPrivateKey(pemBytes); err == nil {
 		return nil, "", fmt.Errorf("the key file parses without a passphrase")
 	}
-	k, err := ssh.ParseRawPrivateKeyWithPassphrase(pemBytes, []byte(keys.Passphrase))
+	k, err := ssh.ParseRawPrivateKeyWithPassphrase(pemBytes, passphrase)
 	if err != nil {
 		return nil, "", err
 	}
